@@ -443,7 +443,8 @@ class RepEngine:
                 tk = target_key(f)
                 cit = facts.items.get(tk)
                 own_method = cit is not None and strip_ty(cit.get("impl_self", "")) in OBJ_TYPES + KEY_TYPES
-                if tk in facts.hir and cit is not None and not tk.startswith("util::") and not own_method:
+                if tk in facts.hir and cit is not None and (not tk.startswith("util::") or tk.startswith("util::rlwe::encrypt_zero"))  \
+                        and not own_method:
                     asm = {}
                     for j, a in enumerate(args):
                         if j >= len(cit["params"]):
@@ -489,7 +490,9 @@ class RepEngine:
                         return st
             return st
 
-        fl = Flow(facts, join, transfer, guard=guard, closure_mode="maybe")
+        # loops are assumed to run at least once (a polynomial-count / component loop that does not run leaves
+        # nothing to be wrong about); this keeps buffer states definite across the per-polynomial loops
+        fl = Flow(facts, join, transfer, guard=guard, closure_mode="maybe", loops_at_least_once=True)
         fl.run(body, init)
         rets = fl.rets
         if not rets:
